@@ -287,7 +287,7 @@ PROPS = {
         assumptions=["AMQP, Kafka and HTTP read only through io.ReadFull/bufio (to be tied by reader-touch facts)"],
     ),
     "C09": dict(
-        proof_modules=["KsVerif.Proofs.C09", "KsVerif.Proofs.C10"],
+        proof_modules=["KsVerif.Proofs.C09", "KsVerif.Proofs.C10", "KsVerif.Proofs.C09Keys"],
         families=["sched.match.redis", "sched.match.http", "sched.match.http10", "sched.match.amqp", "sched.match.kafka", "sched.excl", "http2.conv", "http2.order", "http.conv", "match.multi"],
         rule="http2.conv: pairing by stream id on interleaved HTTP/2 streams with control frames (incl. a graceful GOAWAY) between the "
              "frames of a stream - one item per completed stream, nothing left in the matcher (see C04); "
@@ -301,7 +301,7 @@ PROPS = {
         assumptions=["ident strings are an injective image of (connection, ordinal)"],
     ),
     "C10": dict(
-        proof_modules=["KsVerif.Proofs.C10"],
+        proof_modules=["KsVerif.Proofs.C10", "KsVerif.Proofs.C09Keys"],
         families=["sched.match.redis", "sched.match.http", "sched.match.http10", "sched.match.amqp", "sched.match.kafka", "sched.excl", "sched.indep", "http2.order"],
         rule="sched.indep: HEAD / GET conversations (which the dissector misreads - a recorded finding - so that no model predicts the "
              "items) under every interleaving of the two halves: pairs and residue must equal those of the run 'client half first'; "
